@@ -9,10 +9,22 @@ H="$VERIF_DIR/harness"
 BIN="$VERIF_DIR/bin"
 mkdir -p "$BIN"
 
+# VERIF_REPO (default /repo) lets the same harness be pointed at a scratch worktree (mutation testing);
+# registered checks never set it, so they always build against /repo's working tree.
+MODFLAG=""
+if [ -n "${VERIF_REPO:-}" ] && [ "$VERIF_REPO" != "/repo" ]; then
+  BIN="$VERIF_DIR/bin/alt-$(echo "$VERIF_REPO" | tr '/' '_')"
+  mkdir -p "$BIN"
+  sed "s#=> /repo#=> $VERIF_REPO#" "$H/go.mod" > "$BIN/go.mod"
+  cp "$H/go.sum" "$BIN/go.sum" 2>/dev/null
+  MODFLAG="-modfile=$BIN/go.mod"
+  export VERIF_WORK_TAG="$(basename "$VERIF_REPO")"
+fi
+
 build() {
-  ( cd "$H" && go build -tags verif -o "$BIN/vcheck" ./cmd/vcheck ) || { echo "BUILD-FAILED (plain)"; return 1; }
+  ( cd "$H" && go build $MODFLAG -tags verif -o "$BIN/vcheck" ./cmd/vcheck ) || { echo "BUILD-FAILED (plain)"; return 1; }
   if [ "${1:-}" = race ]; then
-    ( cd "$H" && go build -race -tags verif -o "$BIN/vcheck-race" ./cmd/vcheck ) || { echo "BUILD-FAILED (race)"; return 1; }
+    ( cd "$H" && go build $MODFLAG -race -tags verif -o "$BIN/vcheck-race" ./cmd/vcheck ) || { echo "BUILD-FAILED (race)"; return 1; }
   fi
 }
 
